@@ -402,8 +402,8 @@ class FileInfo(os.PathLike):
         return {
             "path": self.path,
             "times": [
-                self.times[0].strftime("%Y-%m-%dT%H:%M:%S.%f"),
-                self.times[1].strftime("%Y-%m-%dT%H:%M:%S.%f")
+                self.times[0].isoformat(timespec="microseconds"),
+                self.times[1].isoformat(timespec="microseconds")
             ],
             "attr": self.attr,
         }
